@@ -81,13 +81,12 @@ type step struct {
 }
 
 type scenario struct {
-	ID     string          `json:"id"`
-	Conf   conf            `json:"conf"`
-	Src    [][]string      `json:"src"` // [repo, tag, img]
-	Tgt    [][]string      `json:"tgt"`
-	Extras []string        `json:"extras"` // source repositories that carry a referrer of A
-	Steps  []step          `json:"steps"`
-	Raw    json.RawMessage `json:"-"`
+	ID    string          `json:"id"`
+	Conf  conf            `json:"conf"`
+	Src   [][]string      `json:"src"` // [repo, tag, img]
+	Tgt   [][]string      `json:"tgt"`
+	Steps []step          `json:"steps"`
+	Raw   json.RawMessage `json:"-"`
 }
 
 // ---------------------------------------------------------------------------
@@ -726,11 +725,18 @@ func runScenario(s *scenario, u *universe, regsync, work string, timeout time.Du
 	}()
 
 	// populations
-	for _, r := range s.Extras {
-		u.put(w.hosts["src"], r, "R")
-	}
 	for _, t := range s.Src {
 		u.setTag(w.hosts["src"], t[0], t[1], t[2])
+	}
+	// the source repository of a repository entry exists even when it has no tags; every source
+	// repository carries R, a referrer of image A (only the referrers switch makes it travel)
+	for _, e := range s.Conf.Entries {
+		if e.Type == "repository" {
+			w.hosts["src"].Repo(e.SRepo)
+		}
+	}
+	for r := range w.hosts["src"].Clone().Repos {
+		u.put(w.hosts["src"], r, "R")
 	}
 	for _, t := range s.Tgt {
 		u.setTag(w.hosts["tgt"], t[0], t[1], t[2])
